@@ -510,6 +510,13 @@ def _lis_item_lists():
     # the smallest LIS files: nothing but header / trailer records (a single physical record at the least)
     small = [['file_head'], ['tape_head'], ['reel_head'], ['reel_head', 'tape_head'], ['file_head', 'file_tail'],
              ['reel_head', 'tape_head', 'file_head', 'file_tail', 'tape_tail', 'reel_tail'], ['file_head', 'cons', 'file_tail']]
+    # two log passes whose frame sizes do not divide each other's records (both orders), and a normal + alternate data pair
+    pa = c06.base_spec([c06.chan('DEPT', 68), c06.chan('GR  ', 68)], 4, 2)
+    pb = c06.base_spec([c06.chan('DEPT', 68), c06.chan('GR  ', 68), c06.chan('CALI', 68)], 3, 1, updown=1)
+    pt = c06.base_spec([c06.chan('TIME', 68), c06.chan('TENS', 73), c06.chan('CALI', 68)], 3, 1, dtype=1, x0=50)
+    small += [['file_head', ['pass', pa, 0], 'file_tail', 'file_head', ['pass', pb, 1], 'file_tail'],
+              ['file_head', ['pass', pb, 1], 'file_tail', 'file_head', ['pass', pa, 0], 'file_tail'],
+              ['file_head', ['pair', pa, 0, pt, 1, 'ABAB'], 'file_tail']]
     for items in small + [it for it, _layout, _ops in c06.gen_I('quick')]:
         key = repr(items)
         if key not in seen:
